@@ -3,11 +3,15 @@ import Holpy.C15.Model
 /-
 Line protocol for the C15 model (one s-expression in, one out):
   (solve FUEL CNF VARS RES)     -> (sat ASG) | (unsat CNF PROOFS) | (error KIND)
+  (nolearn FUEL CNF VARS RES)   -> T | F             (the run learns no non-empty clause)
   (issol CNF ASG)               -> T | F
   (resolve C1 C2 NAME)          -> CLAUSE            (canonical order)
   (checktrace CNF N0 PROOFS)    -> T | F
   (checkproofs CNF PROOFS)      -> T | F             (CNF = the input; learned clauses are rebuilt)
   (tseitin FORM (n ...) (FORM ...)) -> CNF | none   (extra used names; the subterm numbering)
+  (macro-resolve C1 C2)         -> CLAUSE | none     (logic.resolution on two clauses)
+  (zreplay CNF ((i ...) ...))   -> CNF | none        (replay loop of zChaff.solve / proofrec.solve_cnf)
+  (tseitin-hyps FORM (n ...) (FORM ...)) -> (FORM ...) | none   (hypotheses of encode's theorem)
   (tseitin-unfixed FORM (FORM ...)) -> CNF | none   (naming x1..xn regardless of the formula)
 FORM = (atom n) | tt | ff | (not F) | (and F F) | (or F F) | (imp F F) | (iff F F)
 CNF = (CLAUSE ...), CLAUSE = ((name T|F) ...), ASG = ((name T|F) ...), PROOFS = ((id (i ...)) ...)
@@ -39,6 +43,16 @@ partial def formOf : Sexp → Option Form
   | .list [.atom "iff", a, b] => do some (.iff (← formOf a) (← formOf b))
   | _ => none
 
+def formTo : Form → Sexp
+  | .atom n => .list [.atom "atom", Sexp.ofNat n]
+  | .tt => .atom "tt"
+  | .ff => .atom "ff"
+  | .not a => .list [.atom "not", formTo a]
+  | .and a b => .list [.atom "and", formTo a, formTo b]
+  | .or a b => .list [.atom "or", formTo a, formTo b]
+  | .imp a b => .list [.atom "imp", formTo a, formTo b]
+  | .iff a b => .list [.atom "iff", formTo a, formTo b]
+
 def litTo (l : Lit) : Sexp := .list [Sexp.ofNat l.1, Sexp.ofBool l.2]
 def clauseTo (c : Clause) : Sexp := .list (c.map litTo)
 def cnfTo (c : CNF) : Sexp := .list (c.map clauseTo)
@@ -59,6 +73,10 @@ def handle (line : String) : String :=
       | .unsat c' ps => toString (Sexp.list [.atom "unsat", cnfTo c',
           .list (ps.map fun p => .list [Sexp.ofNat p.1, .list (p.2.map Sexp.ofNat)])])
       | .error e => toString (Sexp.list [.atom "error", .atom (errTo e)])
+    | _, _, _, _ => "bad-op"
+  | some (.list [.atom "nolearn", fuel, cnf, vars, res]) =>
+    match fuel.toNat?, cnfOf cnf, natsOf vars, cnfOf res with
+    | some f, some c, some v, some r => toString (Sexp.ofBool (noLearnRun f c ⟨v, r⟩))
     | _, _, _, _ => "bad-op"
   | some (.list [.atom "issol", cnf, asg]) =>
     match cnfOf cnf, clauseOf asg with
@@ -81,6 +99,27 @@ def handle (line : String) : String :=
     | some f, some e, some o =>
       match tseitinOrd f e o with
       | some c => toString (cnfTo c)
+      | none => "none"
+    | _, _, _ => "bad-op"
+  | some (.list [.atom "macro-resolve", c1, c2]) =>
+    match clauseOf c1, clauseOf c2 with
+    | some a, some b =>
+      match macroResolve a b with
+      | some r => toString (clauseTo r)
+      | none => "none"
+    | _, _ => "bad-op"
+  | some (.list [.atom "zreplay", cnf, ps]) =>
+    match cnfOf cnf, (do (← ps.toList?).mapM natsOf) with
+    | some c, some p =>
+      match zReplay c p with
+      | some r => toString (cnfTo r)
+      | none => "none"
+    | _, _ => "bad-op"
+  | some (.list [.atom "tseitin-hyps", f, extra, order]) =>
+    match formOf f, natsOf extra, (do (← order.toList?).mapM formOf) with
+    | some f, some e, some o =>
+      match tseitinHyps f e o with
+      | some hs => toString (Sexp.list (hs.map formTo))
       | none => "none"
     | _, _, _ => "bad-op"
   | some (.list [.atom "tseitin-unfixed", f, order]) =>
